@@ -42,7 +42,7 @@ TreeOK(m, p, v) ==
 
 Trees ==
   CASE Family = "all" ->
-         { Mk(M, p, v) : p \in MyShapes(M), v \in {w \in [1..M -> AllV] : \A q \in MyShapes(M) : TRUE} }
+         { Mk(M, p, v) : p \in MyShapes(M), v \in [1..M -> AllV] }
     [] Family = "collide" ->
          { Mk(5, <<0, 1, 2, 1, 4>>, <<V("object", 0, "none", FALSE, FALSE, ""), V("array", 0, "none", FALSE, FALSE, ""), x, o, y>>) :
              x \in FieldV, y \in FieldV, o \in {V("object", 1, "none", FALSE, FALSE, ""), V("object", 3, "none", FALSE, FALSE, "")} }
